@@ -384,7 +384,19 @@ func genCw(r *rand.Rand) string {
 	if len(sc) > 0 && r.Intn(30) != 0 {
 		s = strings.Join(sc, ",")
 	}
-	return ln("cw", u(bound), i(to), s)
+	// the constraint is registered through a sequence of SetCommitWaitUntilTSO calls whose maximum is `bound`
+	regs := []string{u(bound)}
+	switch r.Intn(6) {
+	case 0:
+		regs = []string{u(bound), "0"}
+	case 1:
+		regs = []string{"0", u(bound), u(bound / 2), "0"}
+	case 2:
+		regs = []string{u(bound - bound/3), u(bound), u(bound - 1 + 1 - bound/4)}
+	case 3:
+		regs = []string{u(bound), u(bound), "0", "1"}
+	}
+	return ln("cw", strings.Join(regs, ","), i(to), s)
 }
 
 func genLo(r *rand.Rand) []string {
@@ -507,8 +519,12 @@ func generate(seed int64, thorough bool) []string {
 		for mode := 0; mode < 3; mode++ {
 			for causal := 0; causal < 2; causal++ {
 				for _, ahead := range []int64{-100, 0, 25 + r.Int63n(30), 70 + r.Int63n(30)} {
-					o = append(o, ln("tx", strconv.Itoa(mode), strconv.Itoa(causal), i(ahead), "1388", strconv.Itoa(1+r.Intn(3))))
+					// registration sequences on one transaction: single, then zero, raise/lower, zero first, repeated
+					a := i(ahead)
+					regs := [][]string{{a}, {a, "z"}, {i(ahead - 20), a, i(ahead - 40)}, {"z", a, "z", i(ahead - 10)}, {a, a, "z"}}[r.Intn(5)]
+					o = append(o, ln("tx", strconv.Itoa(mode), strconv.Itoa(causal), strings.Join(regs, ","), "1388", strconv.Itoa(1+r.Intn(3))))
 				}
+				o = append(o, ln("tx", strconv.Itoa(mode), strconv.Itoa(causal), i(40+r.Int63n(20))+",z", "1388", "1"))
 				o = append(o, ln("tx", strconv.Itoa(mode), strconv.Itoa(causal), "c8", "a", "2")) // 200ms ahead, 10ms allowed: must fail
 			}
 		}
@@ -523,7 +539,7 @@ func generate(seed int64, thorough bool) []string {
 			strconv.Itoa(250+250*(mul/8)), strconv.Itoa([]int{300, 1000, 5000, 600000, 2000000}[r.Intn(5)])))
 		o = append(o, ln("st", fmt.Sprint(seed*100+int64(c)), strconv.Itoa(2+r.Intn(14)), strconv.Itoa(200*mul)))
 		// concurrent first users of fresh txn scopes: rounds, wall-clock effort budget (ms)
-		o = append(o, ln("rf", fmt.Sprint(seed*100+int64(c)), strconv.Itoa(40*mul), strconv.Itoa(1+c%3)))
+		o = append(o, ln("rf", fmt.Sprint(seed*100+int64(c)), strconv.Itoa(60*mul), strconv.Itoa(2+c%2)))
 		o = append(o, ln("fs", fmt.Sprint(seed*100+int64(c)), strconv.Itoa(4000*mul), strconv.Itoa(1500+500*(mul/8))))
 	}
 	_ = time.Now
